@@ -693,19 +693,25 @@ def r1_7(repo: Repo) -> RuleResult:
     TREE = "vectorizers/tree_token_cooccurrence.py"
     k = repo.func(TREE, "sequence_tree_skip_grams")
     fit = repo.func(TREE, "LabelledTreeCooccurrenceVectorizer.fit")
-    # kernel: which branch transposes, and in which order does 'directional' stack?
+    # kernel: which orientation transposes, and in which order does 'directional' stack?  (the dispatch on the
+    # orientation constants is evaluated per orientation, whatever its spelling)
+    from .common import flatten_dispatch
+
+    rets = [n for n in walk_no_nested(k.node) if isinstance(n, ast.Return) and isinstance(n.value, ast.Name)]
+    if len(rets) != 1:
+        raise AnalysisError("R1.7: sequence_tree_skip_grams does not return its matrix by name")
+    M = rets[0].value.id
+    disp = [n for n in k.node.body if isinstance(n, ast.If) and "window_orientation" in norm(n.test)
+            and any(isinstance(x, ast.Constant) and isinstance(x.value, str) for x in ast.walk(n.test))]
     before_is_T = None
     stack = None
-    for n in walk_no_nested(k.node):
-        if isinstance(n, ast.If) and isinstance(n.test, ast.Compare) and norm(n.test.left) == "window_orientation" and isinstance(n.test.comparators[0], ast.Constant):
-            key = n.test.comparators[0].value
-            body = " ".join(norm(x) for x in n.body)
-            if key == "before":
-                before_is_T = "global_counts = global_counts.T" in body
-            if key == "directional":
-                for c in ast.walk(n.body[0]):
-                    if isinstance(c, ast.Call) and norm(c.func).endswith("hstack") and isinstance(c.args[0], (ast.List, ast.Tuple)):
-                        stack = [norm(x) for x in c.args[0].elts]
+    if disp:
+        arm_b = flatten_dispatch([disp[0]], "before", "window_orientation")
+        before_is_T = any(isinstance(x, ast.Assign) and norm(x.targets[0]) == M and norm(x.value) in ("%s.T" % M, "%s.transpose()" % M) for x in arm_b)
+        for st in flatten_dispatch([disp[0]], "directional", "window_orientation"):
+            for c in ast.walk(st):
+                if isinstance(c, ast.Call) and norm(c.func).endswith("hstack") and c.args and isinstance(c.args[0], (ast.List, ast.Tuple)):
+                    stack = ["global_counts.T" if norm(x) in ("%s.T" % M, "%s.transpose()" % M) else ("global_counts" if norm(x) == M else norm(x)) for x in c.args[0].elts]
     if before_is_T is None or stack is None or len(stack) != 2:
         raise AnalysisError("R1.7: orientation dispatch of sequence_tree_skip_grams not recognised")
     first_is_before = (stack[0] == "global_counts.T") == before_is_T and stack[0] != stack[1]
